@@ -131,6 +131,8 @@ def c09(tier, seed):
     for cfg in ("K1", "K4"):
         check_threefish.c09(r, cfg)
     r.floor("cipher x config instances", len(r.holds) + len(r.violations), 12)
+    ns = check_threefish.c10_slices(r, "K1")
+    r.floor("slice / par-block trait methods compared with the single-block methods", ns, 12)
     r.assumptions = ["spec/threefish.py transcribes Skein 1.3 (validated against the NIST vectors by spec/selftest.py)",
                      "normalisation laws of engine/bv.py", "core slice/iterator models"]
     return r.finish(
@@ -148,6 +150,8 @@ def c10(tier, seed):
     for cfg in ("K1", "K4"):
         check_threefish.c10(r, cfg)
     r.floor("size x order x config instances", len(r.holds) + len(r.violations), 12)
+    ns = check_threefish.c10_slices(r, "K1")
+    r.floor("slice / par-block trait methods compared with the single-block methods", ns, 12)
     r.assumptions = ["normalisation laws of engine/bv.py (x+k-k = x, x^y^y = x, rotr(rotl(x,r),r) = x)"]
     return r.finish(
         "decrypt_block(encrypt_block(b)) and encrypt_block(decrypt_block(b)) are evaluated with the whole subkey array "
@@ -311,7 +315,7 @@ from . import check_e2e
 
 def _e2e_chunks(bb, tier):
     ch = check_e2e.chunkings(bb)
-    return ch if tier == "thorough" else [ch[0], ch[3], ch[6], ch[7]]
+    return ch if tier == "thorough" else [ch[0], ch[3], ch[6], ch[7], ch[10]]
 
 
 @check("C04")
@@ -334,7 +338,7 @@ def c04(tier, seed):
         for ch in _e2e_chunks(check_blake.B.PARAMS[variant][2], tier):
             jobs.append((check_e2e.e2e_blake, ("K1", "R4.6", (name,), (ch,))))
     rets = par.run(r, jobs)
-    r.floor("end-to-end digests (variant x chunking)", sum(x for (fn, _), x in zip(jobs, rets) if fn is check_e2e.e2e_blake and x), 16 if tier == "quick" else 40)
+    r.floor("end-to-end digests (variant x chunking)", sum(x for (fn, _), x in zip(jobs, rets) if fn is check_e2e.e2e_blake and x), 20 if tier == "quick" else 48)
     n = sum(x for (fn, _), x in zip(jobs, rets) if fn is check_blake.c04_compress and x)
     nf = sum(x for (fn, _), x in zip(jobs, rets) if fn is check_blake.c04_finalize and x)
     r.floor("compression instances (word size x machine)", n, 8 if tier == "quick" else 10)
@@ -372,7 +376,7 @@ def c05(tier, seed):
             for ch in _e2e_chunks(nb, tier):
                 jobs.append((check_e2e.e2e_skein, ("K1", "R5.6", (ch,), ((name, n),))))
     rets = par.run(r, jobs)
-    r.floor("end-to-end digests (instantiation x chunking)", sum(x for (fn, _), x in zip(jobs, rets) if fn is check_e2e.e2e_skein and x), 24 if tier == "quick" else 180)
+    r.floor("end-to-end digests (instantiation x chunking)", sum(x for (fn, _), x in zip(jobs, rets) if fn is check_e2e.e2e_skein and x), 30 if tier == "quick" else 216)
     nf = sum(x for (fn, _), x in zip(jobs, rets) if fn is check_skein.c05_finalize and x)
     r.floor("hasher instantiations (state size x output size)", len(hs), 18)
     r.floor("finalisation specialisations", nf, 1266)
@@ -409,7 +413,7 @@ def c07(tier, seed):
             for ch in _e2e_chunks(8 * cols, tier):
                 jobs.append((check_e2e.e2e_groestl, ("K1", arm, "R7.7", (name,), (ch,))))
     rets = par.run(r, jobs)
-    r.floor("end-to-end digests (variant x chunking x arm)", sum(x for (fn, _), x in zip(jobs, rets) if fn is check_e2e.e2e_groestl and x), 16 if tier == "quick" else 120)
+    r.floor("end-to-end digests (variant x chunking x arm)", sum(x for (fn, _), x in zip(jobs, rets) if fn is check_e2e.e2e_groestl and x), 20 if tier == "quick" else 144)
     nf = sum(x for (fn, _), x in zip(jobs, rets) if fn is check_groestl.c07_finalize and x)
     r.floor("finalisation specialisations (variant x buffer position)", nf, 384)
     r.floor("compression chain instances", sum(1 for rule, _ in r.holds if rule == "R7.3") + sum(1 for v in r.violations if v["rule"] == "R7.3"), 12)
@@ -449,7 +453,7 @@ def c06(tier, seed):
         for ch in _e2e_chunks(64, tier):
             jobs.append((check_e2e.e2e_jh, ("K1", "R6.8", (name,), (ch,))))
     rets = par.run(r, jobs)
-    r.floor("end-to-end digests (variant x chunking)", sum(x for (fn, _), x in zip(jobs, rets) if fn is check_e2e.e2e_jh and x), 16 if tier == "quick" else 40)
+    r.floor("end-to-end digests (variant x chunking)", sum(x for (fn, _), x in zip(jobs, rets) if fn is check_e2e.e2e_jh and x), 20 if tier == "quick" else 48)
     nf = sum(x for (fn, _), x in zip(jobs, rets) if fn is check_jh.c06_finalize and x)
     n8 = sum(x for (fn, _), x in zip(jobs, rets) if fn is check_jh.c06_f8 and x)
     r.floor("F8 instances (machines)", n8, 4 if tier == "quick" else 5)
